@@ -900,8 +900,16 @@ impl CxxCodeBodyTranslator {
                             .chain(formatted_args)
                             .join(" << ")
                     }
-                    BuiltinFunctionKind::Max => format!("std::max({})", formatted_args.join(", ")),
-                    BuiltinFunctionKind::Min => format!("std::min({})", formatted_args.join(", ")),
+                    BuiltinFunctionKind::Max => format!(
+                        "std::max{}({})",
+                        uint_template_argument(args),
+                        formatted_args.join(", ")
+                    ),
+                    BuiltinFunctionKind::Min => format!(
+                        "std::min{}({})",
+                        uint_template_argument(args),
+                        formatted_args.join(", ")
+                    ),
                     BuiltinFunctionKind::Tr => format!(
                         "QCoreApplication::translate({context}, {args})",
                         context = format_cxx_string_literal(&self.tr_context),
@@ -1017,6 +1025,19 @@ fn is_double_rem(op: &BinaryOp, l: &tir::Operand, r: &tir::Operand) -> bool {
     use crate::typedexpr::TypeDesc;
     matches!(op, BinaryOp::Arith(BinaryArithOp::Rem))
         && (l.type_desc() == TypeDesc::DOUBLE || r.type_desc() == TypeDesc::DOUBLE)
+}
+
+/// Explicit template argument needed if an integer literal (of C++ type `int`) is paired with
+/// a `uint` value, where the template argument could not be deduced.
+fn uint_template_argument(args: &[tir::Operand]) -> &'static str {
+    use crate::typedexpr::TypeDesc;
+    let has_uint = args.iter().any(|a| a.type_desc() == TypeDesc::UINT);
+    let has_const = args.iter().any(|a| a.type_desc() == TypeDesc::ConstInteger);
+    if has_uint && has_const {
+        "<uint>"
+    } else {
+        ""
+    }
 }
 
 fn member_access_op(a: &tir::Operand) -> &'static str {
